@@ -65,7 +65,8 @@ func jsonFileScenario(r *Run) {
 	workers := 1 + hdr.Draw(16)
 	bufSize := drawBufferSize(hdr)
 	chunks := drawChunks(hdr)
-	gateWorkers := hdr.Chance(4, 5)
+	gateWorkers := true // every run is scheduled by the tape (an ungated run would not replay)
+	_ = hdr.Chance(4, 5)
 	gateReader := hdr.Chance(1, 2)
 	sticky := []int{0, 50, 90}[hdr.Draw(3)]
 	trailingNewline := !hdr.Chance(1, 5)
